@@ -68,10 +68,10 @@ Inductive ty :=
 | TLitStr (v : str) (raw : node)
 | TLitNum (v : str) (raw : node)
 | TLitBool (b : bool)
-| TFn (params : node)                         (* function type *)
-| TCtor (params : node)                       (* constructor type *)
-| TArray (elem : node)                        (* T[] *)
-| TTuple (elems : node)
+| TFn (fields : list node)                    (* function type: whatever fields the parser gives it *)
+| TCtor (fields : list node)                  (* constructor type *)
+| TArray (fields : list node)                 (* T[] *)
+| TTuple (fields : list node)
 | TArrayRef (params : list node)              (* Array<T> *)
 | TFunctionRef                                (* Function *)
 | TClass (name : str) (c : N) (params : list node)
@@ -92,10 +92,10 @@ Fixpoint enc_ty (t : ty) : node :=
   | TLitStr v w => gobj "TsLiteralType" [fld "literal" (Str v w)]
   | TLitNum v w => gobj "TsLiteralType" [fld "literal" (Num v w)]
   | TLitBool b => gobj "TsLiteralType" [fld "literal" (Bool b)]
-  | TFn p => gobj "TsFunctionType" [fld "params" p]
-  | TCtor p => gobj "TsConstructorType" [fld "params" p]
-  | TArray e => gobj "TsArrayType" [fld "elemType" e]
-  | TTuple e => gobj "TsTupleType" [fld "elemTypes" e]
+  | TFn fs => gobj "TsFunctionType" fs
+  | TCtor fs => gobj "TsConstructorType" fs
+  | TArray fs => gobj "TsArrayType" fs
+  | TTuple fs => gobj "TsTupleType" fs
   | TArrayRef ps => tref (s_ "Array") 1 ps
   | TFunctionRef => tref (s_ "Function") 1 []
   | TClass n c ps => tref n c ps
@@ -428,7 +428,7 @@ Proof. split; vm_compute; reflexivity. Qed.
 (* non-vacuity: a nested type that meets every hypothesis *)
 Definition inhab_example : ty :=
   TUnion [TParen (TUnion [TKw KwString; TKw KwNull]); TNonNull 1 (TUnion [TKw KwNumber; TKw KwNull]);
-          TClass (s_ "Date") 1 []; TArray nnull; TObjLit [gobj "TsPropertySignature" []]].
+          TClass (s_ "Date") 1 []; TArray [fld "elemType" nnull]; TObjLit [gobj "TsPropertySignature" []]].
 Lemma inhab_example_ok :
   wf st0 inhab_example /\ anyfree inhab_example = true /\ inh inhab_example (KInst (s_ "Date")) = true
   /\ inh inhab_example KNull = true.
